@@ -38,10 +38,11 @@ TReload ==
   /\ LET valid == Valid(file)
          newdef == IF valid THEN file ELSE pools.def
          changed == valid /\ file # pools.def
+         unspec == file = "unreachable" \/ pools.def = "unreachable"     \* no expectation about pool objects around such a file
          v1 == ~valid /\ (E.created \/ E.ctl_created \/ E.config_stored)
-         v2 == valid /\ ~changed /\ E.created
+         v2 == valid /\ ~changed /\ E.created /\ ~unspec
          v3 == E.ctl_closed \/ E.ctl_created
-         v4 == changed /\ ~E.created /\ newdef # "absent"
+         v4 == changed /\ ~E.created /\ newdef # "absent" /\ ~unspec
      IN /\ Flag(v1, "invalid_reload_had_effects", [file |-> file, created |-> E.created, config_stored |-> E.config_stored])
         /\ Flag(v2, "unchanged_pool_recreated", [def |-> pools.def])
         /\ Flag(v3, "control_pool_touched", [closed |-> E.ctl_closed, created |-> E.ctl_created])
@@ -61,8 +62,8 @@ TTxStart ==
   /\ E.ev = "txstart"
   /\ LET d == pools.def
          v1 == d = "absent" /\ E.landed # "none"
-         v2 == d # "absent" /\ E.landed # ServerOf(d) /\ E.landed # "none"
-         v3 == d # "absent" /\ E.landed = "none"
+         v2 == d \notin {"absent", "unreachable"} /\ E.landed # ServerOf(d) /\ E.landed # "none"
+         v3 == d \notin {"absent", "unreachable"} /\ E.landed = "none"
      IN /\ Flag(v1, "removed_pool_served", [landed |-> E.landed])
         /\ Flag(v2, "wrong_definition_used", [in_effect |-> d, expected |-> ServerOf(d), landed |-> E.landed])
         /\ Flag(v3, "transaction_refused", [in_effect |-> d, reply |-> E.reply])
@@ -77,8 +78,8 @@ TProbe ==
   /\ LET d == pools.def
          guarded == d = "P"
          v1 == guarded /\ (~E.denied \/ E.landed # "none")
-         v2 == ~guarded /\ d # "absent" /\ E.denied
-         v3 == ~guarded /\ d # "absent" /\ ~E.denied /\ E.landed # ServerOf(d) /\ E.landed # "none"
+         v2 == ~guarded /\ d \notin {"absent", "unreachable"} /\ E.denied
+         v3 == ~guarded /\ d \notin {"absent", "unreachable"} /\ ~E.denied /\ E.landed # ServerOf(d) /\ E.landed # "none"
          v4 == d = "absent" /\ E.landed # "none"
      IN /\ Flag(v1, "policy_of_new_definition_not_applied", [in_effect |-> d, denied |-> E.denied, landed |-> E.landed])
         /\ Flag(v2, "policy_of_old_definition_applied", [in_effect |-> d, reply |-> E.reply])
